@@ -164,9 +164,18 @@ class Env:
                                  'ubsan_standalone-x86_64.so'],
                                 capture_output=True, text=True).stdout.strip()
             self.ld_path = os.path.dirname(rt)
+            # abs() is a library call and is not instrumented; in the UBSan
+            # build it is replaced by the equivalent expression so that
+            # abs(INT_MIN) is reported at the place of the call
+            hdr = os.path.join(self.dir, 'verif_abs.h')
+            with open(hdr, 'w') as f:
+                f.write('#include <stdlib.h>\n#include <math.h>\n'
+                        '#include <complex.h>\n'
+                        '#define abs(x) ((x) < 0 ? -(x) : (x))\n')
             for mod, srcs in overlay.REBUILT.items():
                 outp = os.path.join(self.dir, 'cvxopt', mod + overlay.SUFFIX)
                 args = ['clang', '-shared', '-fPIC', '-O1', '-g', '-w',
+                        '-include', hdr,
                         '-fsanitize=signed-integer-overflow,'
                         'implicit-signed-integer-truncation',
                         '-shared-libsan', '-I', overlay.PYINC, '-I',
